@@ -14,8 +14,11 @@ SeqsOf(A, n) == IF n = 0 THEN {<<>>} ELSE LET s == SeqsOf(A, n - 1) IN s \cup {A
 QBody == {<<97>>, <<37, 52, 49>>, <<43>>, <<59>>, <<>>, <<37, 50, 53>>}
 Init == /\ scheme \in Schemes /\ auth \in Auths
         /\ segs \in SeqsOf({<<97>>, <<37, 52, 49>>, <<46>>, <<>>, <<43>>, <<59, 120>>}, 2)
-        /\ pairs \in SeqsOf({<<k, v>> : k \in {<<97>>, <<37, 52, 49>>, <<43>>}, v \in QBody \cup {<<61>>}}, 2)
+        /\ pairs \in SeqsOf({<<k, v>> : k \in {<<97>>, <<37, 52, 49>>, <<43>>}, v \in QBody \cup {<<61>>}}, 1)
+                   \cup {<< <<k, v>>, <<k2, v2>> >> : k \in {<<97>>}, v \in {<<>>, <<59>>, <<61>>}, k2 \in {<<97>>, <<43>>}, v2 \in {<<37, 52, 49>>, <<61>>}}
         /\ frag \in {<<>>, <<102>>, <<37, 52, 49>>, <<47, 63>>}
+        (* RFC 3986 3.3: without an authority the path cannot begin with "//" *)
+        /\ (auth = <<>> => ~(Len(segs) >= 2 /\ Head(segs) = <<>>))
 Next == UNCHANGED vars
 Spec == Init /\ [][Next]_vars
 RECURSIVE JoinWith(_, _)
